@@ -511,6 +511,23 @@ def pick(c):
     v.only_b
     return v
 ''', [(16, 6)], [(16, 12), (17, 12)]),
+    ('same-attribute-assigned-in-two-bases', '''class A(object):
+    def open_a(self):
+        self.conn = 1
+        self.only_a = 1
+class B(object):
+    def open_b(self):
+        self.conn = "b"
+        self.only_b = 2
+class B2(B):
+    def reopen(self):
+        self.conn = []
+class C(A, B2):
+    def use(self):
+        return self.conn
+c = C()
+c.conn
+''', [(14, 20), (16, 2)], [(14, 23), (16, 6)]),
     ('closures-globals', '''import sys, os.path
 from os import path as p1, sep as s1
 count = 0
@@ -555,7 +572,7 @@ print('REPRODUCED: the answer depends on the iteration order of a set' if outs[0
 
 
 @harness(['C17'], 'supp.linter.lint / supp.assistant.assist / location [every set(...) of the analysis modules iterates in an adversarial order]',
-         bounded='5 programs (branches, loops and try, class hierarchy with instance attributes, an attribute of a value merged from three branches, closures / globals / imports / comprehension) x '
+         bounded='6 programs (branches, loops and try, class hierarchy with instance attributes, one attribute assigned through self in several bases, an attribute of a value merged from three branches, closures / globals / imports / comprehension) x '
                  '{lint, assist and location at 1-2 cursor positions} x 4 iteration orders of every set constructed through set() / frozenset() or held by a module global '
                  '(insertion order, reversed, rotated, interleaved); a source root with 8 files of every extension-suffix shape x 4 import completions')
 def api_independent_of_set_order(run):
